@@ -11,7 +11,7 @@ Definition d_aop : dec aop :=
   d_ret (match t with
          | 0 => AAdd | 1 => ASub | 2 => AMul | 3 => ADiv | 4 => AFma | 5 => ASqrt | 6 => ANeg | 7 => AFabs
          | 8 => ACopysign | 9 => AFdim | 10 => AFloor | 11 => ACeil | 12 => ATrunc | 13 => ARoundint
-         | 14 => AFmod | 15 => ARemainder | _ => AMod end).
+         | 14 => AFmod | 15 => ARemainder | 16 => AMod | _ => ANearbyint end).
 
 Fixpoint d_list {A} (d : dec A) (n : nat) : dec (list A) :=
   match n with
